@@ -33,7 +33,7 @@ def sig(b):
          "to": rs.get("to"),
          # where the independent walker first lost the tiling; only deterministic (and only used) for root files
          "brk": rs.get("brk", "") if rs.get("kind") == "root" else ""}
-    for k in ("phase", "name", "field", "what", "table", "api"):
+    for k in ("phase", "name", "field", "what", "table", "api", "tag"):
         if k in rec:
             s[k] = rec[k]
     if "res" in rec:
@@ -43,7 +43,9 @@ def sig(b):
             if d in sh:
                 s[d] = sh[d]
     else:
-        s["xf"] = sh.get("xf")
+        for d in ("nvert", "nidx", "nnorm", "ntc", "ncol", "nbatch", "nbsp", "liq", "ndref", "xf"):
+            if d in sh:
+                s[d] = sh[d]
     return s
 
 
